@@ -576,5 +576,32 @@ func genC15(r *Runner) {
 		}
 		jobs = append(jobs, s)
 	}
+	if c15ChainDefectsOnly {
+		// C14 through the sign path: an honest authority, the right roots, no validator or one that reports every certificate OK —
+		// whether a token is embedded depends on the TSA chain alone
+		var keep []signSpec
+		for _, j := range jobs {
+			t := j.ts
+			if t == nil || !t.configured || t.mode != "http" || t.behaviour != "good" || t.roots != "right" || j.scheme != signature.SigningSchemeX509 {
+				continue
+			}
+			allOK := t.validator == "none"
+			if t.validator == "vec" && len(t.vec) == t.tsaLen {
+				allOK = true
+				for _, v := range t.vec {
+					if v != result.ResultOK {
+						allOK = false
+					}
+				}
+			}
+			if allOK && !strings.HasPrefix(j.label, "req:") {
+				keep = append(keep, j)
+			}
+		}
+		jobs = keep
+	}
 	runJobs(len(jobs), func(i int) { runSignSpec(r, jobs[i], i) })
 }
+
+// c15ChainDefectsOnly: run only the cases of genC15 in which the TSA chain alone decides (used by the C14 check)
+var c15ChainDefectsOnly bool
